@@ -21,6 +21,8 @@
 #include <errno.h>
 
 #ifndef VF_REPLAY
+/* errno as CBMC's library models it (errno == *__errno_location() == __CPROVER_errno) */
+extern __CPROVER_thread_local int __CPROVER_errno;
 
 #define VF_INI_NAME_SPAN(p, n)	(((p) == NULL && (n) == 0) || ((n) != 0 && __CPROVER_r_ok((p), (n))))
 #define VF_INI_VNAME_SPAN(p, n)	((n) != 0 && __CPROVER_r_ok((p), (n)))
